@@ -123,8 +123,12 @@ def run(prop: str, tier: str) -> int:
     total, nrep = engine.replay_worlds("q", 2500 if tier == "quick" else 40000, pa,
                                        lo=(prop == "C07"), subs=(prop == "C08"))
     jobs.append((pa, nrep))
+    if tier == "quick":      # three hits on the input (nested contexts, two decoded hits in one context, ...)
+        p3 = os.path.join(work, "worlds-t3.ndjson")
+        _t, n3 = engine.replay_worlds("t3s", 1500, p3, lo=(prop == "C07"), subs=(prop == "C08"))
+        jobs.append((p3, n3))
     if tier == "thorough":
-        for fam in ("t4", "t2"):
+        for fam in ("t3", "t4", "t2"):
             p2 = os.path.join(work, f"worlds-{fam}.ndjson")
             _t, n2 = engine.replay_worlds(fam, 15000, p2, lo=(prop == "C07"), subs=(prop == "C08"))
             jobs.append((p2, n2))
